@@ -104,7 +104,9 @@ public:
       }
     auto catalog(mounted->volume()->root());
 
-    int sectors_used = 2;
+    // With no files, the used area is just the catalog (which is 4
+    // sectors long in Watford DFS).
+    int sectors_used = catalog.catalog_sectors();
     const std::vector<DFS::CatalogEntry> entries = catalog.entries();
     for (const auto& entry : entries)
       {
